@@ -429,3 +429,23 @@ Check C05_overflow_means_magnitude : forall q : Qc,
   fit q = None ->
   (2 * max_mant * Zpos (Qden (this q)) + Zpos (Qden (this q)) <= 2 * Z.abs (Qnum (this q)))%Z.
 Print Assumptions C05_overflow_means_magnitude.
+
+(* ---- the Questrade converter's FXT pairing (fix b2d4739) ----
+   Found by the structured fuzz of C05 at the thorough tier: a pair of FXT rows
+   whose foreign-currency row has a net amount of 0 made rust_decimal panic with
+   'Division by zero' (FxTracker::add_fxt_row divides the CAD amount by it).
+   After the repair the pair is a row error like the other inconsistencies of a
+   pair, and in exact arithmetic the pairing function has no panic at all. *)
+From ACB Require Import Model.QText Model.Questrade Model.FxTracker Proofs.FxtNoPanic.
+
+Theorem C05_fxt_pairing_never_panics_exact : forall adj fr,
+  exists r, add_fxt_row exact adj fr = Ok r.
+Proof. exact FxtNoPanic.add_fxt_row_total. Qed.
+Check C05_fxt_pairing_never_panics_exact : forall adj fr,
+  exists r, add_fxt_row exact adj fr = Ok r.
+Print Assumptions C05_fxt_pairing_never_panics_exact.
+
+Example C05_fxt_zero_amount_is_an_error :
+  add_fxt_row exact (Some zero_pair_cad) zero_pair_usd = Ok (None, [], Some QErr.fxt_zero_amount) /\
+  add_fxt_row dec (Some zero_pair_cad) zero_pair_usd = Ok (None, [], Some QErr.fxt_zero_amount).
+Proof. exact FxtNoPanic.zero_pair_is_an_error. Qed.
